@@ -53,6 +53,8 @@ type RedisOutput struct {
 	bisyncOffset    atomic.Int64
 	bisyncMissGuard sync.RWMutex
 	bisyncMissRunID string
+	// units were handed to the target since the miss was cached
+	bisyncUnitsSent atomic.Bool
 
 	// the target database the position in checkpointInMem was reached in
 	checkpointInMemDb int
